@@ -22,8 +22,8 @@ type cg struct {
 	stats map[string]int
 }
 
-var condNames = []string{"a", "b", "c", "d", "internal-panic"}
-var specNames = []string{"a", "b", "c", "d", "internal-panic", "condition", "condition"}
+var condNames = []string{"a", "b", "c", "d", "internal-panic", ":kw", "user:a", "a", "b"}
+var specNames = []string{"a", "b", "c", "d", "internal-panic", "condition", "condition", ":kw", "user:a", "lisp:a"}
 
 func (g *cg) n(lo, hi int, l string) int { return rapid.IntRange(lo, hi).Draw(g.t, l) }
 func (g *cg) pick(l string, opts ...string) string {
@@ -67,6 +67,10 @@ func (g *cg) raise() gen.Val {
 		return gen.S("undefined-variable")
 	case 3:
 		return gen.Call("car", gen.I(1))
+	case 4:
+		// the condition argument is not a symbol: an ordinary error about that
+		g.stats["non-symbol-condition"]++
+		return gen.Call("error", gen.Str("just text"), g.datum())
 	default:
 		name := g.pick("cond", condNames...)
 		if name == "internal-panic" {
